@@ -215,50 +215,8 @@ def serializer_rules(ctx, R):
                           % (text, toks, want), node=node, witness="the output of tosieve() does not parse back")
 
     # ---- S4 ------------------------------------------------------------------------
-    ctx.rule("S4", "a text: block is followed by a newline before anything else is written")
-    nl_writes = [w for w in writes if w.args and const_value(ctx.program, f, w.args[0]) == "\n"]
-    ok = False
-    for w in nl_writes:
-        nodes = cfg.node_containing(w)
-
-        def not_quoted(fc):
-            e, pol = fact_atom(fc)
-            t = norm(e)
-            return "startswith('\"')" in t and pol is False
-        extra = []
-        enc = stmt_of(w)._parent
-        if isinstance(enc, ast.If):
-            for x in ast.walk(enc.test):
-                if isinstance(x, ast.Name) and x.id not in valvars:
-                    extra.append(norm(enc.test))
-                    break
-                if isinstance(x, ast.Call) and call_name(x) != "startswith":
-                    extra.append(norm(enc.test))
-                    break
-        if extra:
-            ctx.violation("S4", f, "newline-conditional", "the newline after a text: block is only written when `%s`" % extra[0][:80],
-                          node=w, witness="a multi-line argument in a nested block is glued to the following `;`")
-        if nodes and all(cfg.guarded(n, not_quoted) for n in nodes):
-            # directly after the write of the value
-            st = stmt_of(w)
-            blk = st._parent
-            par = blk._parent
-            body = None
-            for fld in ("body", "orelse"):
-                b = getattr(par, fld, None)
-                if isinstance(b, list) and blk in b:
-                    body = b
-            if body is not None and body.index(blk) > 0:
-                prev = body[body.index(blk) - 1]
-                if isinstance(prev, ast.Expr) and isinstance(prev.value, ast.Call) and prev.value in writes and prev.value.args \
-                        and isinstance(prev.value.args[0], ast.Name) and prev.value.args[0].id in valvars:
-                    ok = True
-    if ok:
-        ctx.holds("S4", "unquoted (multi-line) string values are followed by a newline")
-    else:
-        ctx.violation("S4", f, "no-newline-after-multiline", "a text: block is not followed by a newline: the terminating `.` is not at the end "
-                      "of a line in the output", node=f.node, witness="`vacation text:\\nhi\\n.\\n;` serialises to `...\\n.;` which does not lex")
-
+    ctx.rule("S4", "a text: block is followed by a newline before anything else is written (decided by the evaluation of rule S6: "
+                   "every slot form holding a text: block)")
     s6(ctx, R)
 
     # ---- S5 ------------------------------------------------------------------------
@@ -321,18 +279,7 @@ def serializer_rules(ctx, R):
         ctx.holds("S5", "every child is serialised")
     else:
         ctx.violation("S5", f, "children-not-emitted", "children of a control are not all serialised", node=f.node)
-    sep = [w for w in writes if w.args and const_value(ctx.program, f, w.args[0]) == ", "]
-    for w in sep:
-        nd = cfg.node_containing(w)
-
-        def not_last(fc):
-            e, pol = fact_atom(fc)
-            t = norm(e)
-            return "len(value) - 1" in t and (("!=" in t and pol is True) or ("==" in t and pol is False) or ("<" in t and pol is True))
-        if nd and all(cfg.guarded(x, not_last) for x in nd):
-            ctx.holds("S5", "test separator only between consecutive elements")
-        else:
-            ctx.violation("S5", f, "separator", "the `, ` separator of a test list is not restricted to non-last elements", node=w)
+    # (separators of a test list: decided by the test-list scenario of rule S6)
 
 
 def s6(ctx, R):
@@ -387,11 +334,17 @@ def s6(ctx, R):
         else:
             for label, v in shapes(t):
                 scenarios.append(("positional slot type %r" % (t,), {"name": "slot", "type": t, "required": True}, v, None, (label, v)))
+    TESTS = ["T1", "T2", "T3"]  # stand-ins for test objects: their own tosieve() writes <T1> ...
+    for t in slot_types:
+        if names(t) == ["testlist"]:
+            scenarios.append(("test-list slot", {"name": "slot", "type": t, "required": True}, TESTS, None, ("test list", TESTS)))
     printer = next((m for n, m in R.Command.methods.items() if n.lstrip("_") == "print"), None)
 
     def oracle(interp, e, name, recv, args, kw, st):
         if name == "write" and isinstance(e.func, ast.Attribute) and isinstance(e.func.value, ast.Name) and e.func.value.id == "target":
             return [(fd.Const(None), ("write", args[0] if args else None))]
+        if name == "tosieve" and isinstance(recv, fd.Const) and recv.v in TESTS:
+            return [(fd.Const(None), ("write", fd.Const("<%s>" % recv.v)))]  # a test of the list prints itself
         if name == "isinstance" and len(args) == 2 and isinstance(args[0], fd.Const) and isinstance(e.args[1], ast.Name) \
                 and ctx.program.cls(e.args[1].id) is not None:
             return [(fd.Const(False), None)]  # a str / list / int constant is not an instance of a class of the package
@@ -425,6 +378,15 @@ def s6(ctx, R):
             ws = [x[1] for x in p.events if x[0] == "write"]
             # what matters is the text that comes out, however many write() calls produce it
             consts = [w.v if isinstance(w, fd.Const) else None for w in ws]
+            if label == "test list":
+                if any(not isinstance(w, str) for w in consts):
+                    problems.append("writes %r for a test list" % (consts,))
+                    continue
+                text = "".join(consts)
+                want = "(%s)" % ", ".join("<%s>" % t_ for t_ in TESTS)
+                if text.count(want) != 1:
+                    problems.append("writes %r for a list of three tests (expected %r once)" % (text, want))
+                continue
             if label.startswith("string list"):
                 if any(not isinstance(w, str) for w in consts):
                     if label == "string list":
